@@ -79,7 +79,7 @@ theorem fileclient_returns_value (db : ExtTreeMap String (Bytes × Nat) compare)
   simp [fileGetIfChanged, h, hne]
 
 /-- non-vacuity: the hypotheses of `cond_iff` are satisfiable -/
-example : Inv { secrets := (∅ : SMap).insert "a" (newSecret [1]), gen := 1 } := by
+example : Inv { secrets := (∅ : SMap).insert "a" (newSecret [1]), gen := 1, disk := ∅ } := by
   intro n s h
   by_cases hn : "a" = n
   · subst hn; simp at h; subst h; exact secInv_new [1]
